@@ -100,7 +100,6 @@ pub async fn render_to_string_await_suspense(f: impl FnOnce() -> View) -> String
     }
     is_ssr! {
         use std::cell::LazyCell;
-        use futures::channel::oneshot;
         use sycamore_futures::{provide_executor_scope, use_is_loading_global};
 
         thread_local! {
@@ -110,8 +109,7 @@ pub async fn render_to_string_await_suspense(f: impl FnOnce() -> View) -> String
         }
 
         let mut handle: Option<NodeHandle> = None;
-        let (tx, rx) = oneshot::channel();
-        let mut tx = Some(tx);
+        let (tx, mut rx) = futures::channel::mpsc::unbounded::<()>();
         let mut view = View::default();
         let mut buf = String::new();
 
@@ -130,15 +128,23 @@ pub async fn render_to_string_await_suspense(f: impl FnOnce() -> View) -> String
                     // Now we wait until all suspense has resolved.
                     create_effect(move || {
                         if !use_is_loading_global() {
-                            if let Some(tx) = tx.take() {
-                                // The render future may have been dropped in the meantime.
-                                let _ = tx.send(());
-                            }
+                            // The render future may have been dropped in the meantime.
+                            let _ = tx.unbounded_send(());
                         }
                     });
                 });
             });
-            rx.await.unwrap();
+            // "Nothing is loading" can be a transient state in the middle of an update (a boundary
+            // has just been disposed and its replacement has not registered its tasks yet): the
+            // notification is only a hint, look again once the update that sent it is over.
+            loop {
+                use futures::StreamExt;
+                rx.next().await.unwrap();
+                let loading = SSR_ROOT.with(|root| root.run_in(|| untrack(use_is_loading_global)));
+                if !loading {
+                    break;
+                }
+            }
             // Render now, before the scopes of the view are disposed: disposing runs cleanup
             // callbacks, which can still change what the view shows.
             ssr_node::render_recursive_view(&view, &mut buf);
